@@ -464,6 +464,52 @@ def rule_h_equals_reports(chk, prog):
         chk.broke("chunk_info_equals no longer calls a function that can fail")
 
 
+def rule_i_every_block(chk, prog):
+    """every completed data block is handed to the block writer: the writer keeps per-file state (first block resets the
+    file's start, last block triggers deduplication), so the call must not depend on the block's flags"""
+    from .c17 import guards_with_mask, is_flag_word
+    n = 0
+    for f in prog.functions():
+        if f.decl or not f.unit.src.startswith("lib/sqfs/src/block_processor/"):
+            continue
+        for c in f.calls():
+            if slot_call(c) != ("struct.sqfs_block_writer_t", "write_data_block"):
+                continue
+            n += 1
+            f.build()
+            chk.analysed(f)
+            inst = "%s:write_data_block" % f.name
+            from .c17 import mask_test
+            gs = [(v, m, st) for (v, m, st) in guards_with_mask(f, c.bb) if is_flag_word(f, v)]
+            # a test of the block's flags decides whether the call happens at all: some branch on a flag mask from which the
+            # call is reachable is not post-dominated by it
+            for pb in f.blocks:
+                tt = pb.term if pb.insts else None
+                if tt is None or tt.op != "br" or len(tt.x["succ"]) != 2 or not f.reaches(pb, c.bb) or pb is c.bb:
+                    continue
+                cond = tt.ops[0]
+                mts = []
+                mt = mask_test(cond)
+                if mt:
+                    mts.append(mt)
+                elif cond.is_inst and cond.op == "phi" and cond.ty == "i1":
+                    for o in cond.ops:
+                        m2 = mask_test(o)
+                        if m2:
+                            mts.append(m2)
+                for mt in mts:
+                    if is_flag_word(f, mt[0]) and not f.postdominates(c.bb, pb):
+                        gs.append((mt[0], mt[1], "tested"))
+            if not gs:
+                chk.ok("K11-everyblock", inst, c, "the block writer sees every block, whatever its flags")
+            else:
+                chk.violation("K11-everyblock", inst, c, "blocks are handed to the block writer only when flag mask 0x%x is %s: the writer "
+                              "misses first/last blocks of some files and attributes their data to the wrong file" % (gs[0][1], gs[0][2]))
+    if n == 0:
+        chk.broke("no call of write_data_block found in the block processor")
+    return n
+
+
 def rule_g_truncate(chk, prog):
     """after a duplicate run was found the output file is cut at the end of the last block that is *kept*: the argument of
     truncate is computed from the block list at the updated element count (offset and size of entry used-1), not from a
@@ -528,6 +574,7 @@ def run(chk):
     rule_f_fragcache(chk, prog)
     rule_g_truncate(chk, prog)
     rule_h_equals_reports(chk, prog)
+    rule_i_every_block(chk, prog)
     chk.floor("K9-fragcache", 1)
     chk.floor("K12-compare", 1)
     chk.floor("K13-compare", 2)
